@@ -147,6 +147,12 @@ def run(pid, tier, seed, replay=None, nworkers=None, keep=False):
         else:
             new.append((i, v))
 
+    vsummary = {}
+    for i, v in viols:
+        d = v.get("detail", {}) if isinstance(v.get("detail"), dict) else {}
+        key = f"{v['monitor']}|{d.get('clause', d.get('what', ''))}|{d.get('mech', d.get('backend', ''))}"
+        vsummary[key] = vsummary.get(key, 0) + 1
+
     # inconclusive?
     reasons = []
     missing = [i for i in range(len(cases)) if i not in results]
@@ -216,6 +222,7 @@ def run(pid, tier, seed, replay=None, nworkers=None, keep=False):
             "mechanisms_entered": entered,
             "mechanisms_absent": absent,
             "known_findings_hit": known_hits,
+            "violation_summary": vsummary,
             "new_violations": len(new),
             "inconclusive_reasons": reasons,
             "verdict": {0: "held_on_observed", 1: "violated", 2: "inconclusive"}[rc],
@@ -248,6 +255,8 @@ def run(pid, tier, seed, replay=None, nworkers=None, keep=False):
             print(f"  refusal/skip x{v}: {k}")
     if entered:
         print("  mechanisms entered: " + ", ".join(f"{k.split(':')[-1]}={v}" for k, v in entered.items()))
+    for k, v in sorted(vsummary.items(), key=lambda kv: -kv[1])[:25]:
+        print(f"  violations x{v}: {k}")
     for l in lines:
         print(l)
     print({0: "RESULT held on everything observed", 1: "RESULT violated", 2: "RESULT inconclusive"}[rc])
